@@ -1,12 +1,17 @@
 import KdVerif.Proofs.Projection
+import KdVerif.Proofs.TraceProjection
+import KdVerif.Proofs.TraceNoExc
+import KdVerif.Gen.Decoders
+import KdVerif.Gen.Host
+import KdVerif.Gen.Codes
 /-
   C05 — per-thread results are invariant under interleaving of threads.
 
-  THIS FILE HOLDS THE WINDOW-LEVEL HALF ONLY: the sequence of event windows delivered for a thread (their
-  order and their event lists) depends only on that thread's own event sequence.  The other half of the
-  property — rendered text of the decoders that read no cross-thread table, and the process names learned
-  from a thread's own new-thread/exec record pairs (`learned_names_per_thread`, defect F2) — is added to
-  this file by another slice (Model/Context, Model/TraceStrings).
+  FIRST PART (window level): the sequence of event windows delivered for a thread (their order and their
+  event lists) depends only on that thread's own event sequence.
+  SECOND PART (below, over the whole-`TracesParser` model `Model/Trace.lean`): rendered text of the decoders
+  that read no cross-thread table (`projection_traces`), and the process names learned from a thread's own
+  new-thread/exec record pairs (`learned_names_per_thread`, defect F2; `interleaving_invariant_names`).
 
   Subject: `Model/Pairing.step/run` (= `TracesParser.feed` / `feed_generator` up to `parse_event_list`);
   `domOf` (which codes use the trace-string/data table) is an arbitrary parameter.  A window "belongs to
@@ -98,5 +103,276 @@ example : sequential ≠ roundRobin ∧
       = [[101], [100, 101, 102]] ∧
     ((run (fun _ => false) roundRobin).filter (ofThread 2)).map (List.map (·.timestamp))
       = [[202], [201, 202, 203]] := by decide
+
+end KdVerif.C05
+
+/-! ## Second part: traces with text, and the names a thread teaches (whole `TracesParser`, Model/Trace.lean)
+
+  Subject: `Trace.run` (= `TracesParser.feed_generator`: pairing, the fifteen hand-written handlers, the 454
+  generated decoders, the six context tables).  A run starts from empty pairing tables and ARBITRARY context
+  tables `T` (`PyKdebugParser.traces` hands the parser the tables the thread map filled).  `feed_generator` stops at
+  the first exception, so every statement is about runs that raise none (`NoExc`); the statements compare the
+  merged run with the run of thread `t`'s own subsequence and assume that neither raises.  The second assumption
+  follows from the first (`noexc_own`, `per_thread_of_merged_run`) for every decoder table whose constructor arguments
+  raise independently of the cross-thread tables (`ErrFreeDecoders`) — which the regenerated table is
+  (`all_fields_errFree`, kernel-checked on every run).
+
+  THE PROPERTY'S OWN EXCLUSION, exactly (`Trace.excluded`): the text — nothing else — of
+  * `TRACE_DATA_THREAD_TERMINATE` (`handle_trace_data_thread_terminate` reads `threads_pids` and `tids_names`, which
+    other threads write), and
+  * the generated decoders that read `global_strings` / `threads_pids` / `tids_names`: for the current tree exactly
+    `DBG_DYLD_TIMING_DLSYM`, `_DLOPEN`, `_MAP_IMAGE`, `_DLOPEN_PREFLIGHT` (`excluded_generated_exact`, re-checked by
+    the kernel against the regenerated table on every run).
+  All other handlers — every BSD / Mach / turnstile / perf decoder, the lookups, the trace strings, the sampler,
+  the page-fault and launch composites — are compared WITH their text.
+-/
+namespace KdVerif.C05
+open KdVerif.Trace
+
+/-- A fresh `TracesParser` over context tables `T`. -/
+def start (T : Tabs) : Trace.PState := { pairing := Pairing.PState.empty, tabs := T }
+
+/-- Thread `t`'s own subsequence of a merged history. -/
+def own (t : Nat) (m : List Kevent) : List Kevent := m.filter fun e => e.tid == t
+
+/-- `feed_generator` over `m` raises no exception. -/
+def NoExc (env : Env) (T : Tabs) (m : List Kevent) : Prop := (Trace.run env (start T) m).2.1 = none
+
+instance (env : Env) (T : Tabs) (m : List Kevent) : Decidable (NoExc env T m) := by
+  unfold NoExc; infer_instance
+
+theorem sim_start (t : Nat) (T : Tabs) : Sim t (start T) (start T) :=
+  ⟨Pairing.tidInv_empty, fun _ _ => rfl, AgreeT.refl _ _⟩
+
+/-- **handler_writes_sound.**  The tables a handler call returns are the tables it was given with exactly the
+    assignments `handleWrites` lists applied, in order. -/
+theorem handler_writes_sound (env : Env) (hbn : BenignNested env) (T T' : Tabs) (name : String) (events : List Kevent)
+    (r : Option TraceOut) (h : handle env T name events = .ok (r, T')) :
+    T' = applyWrites T (handleWrites env T name events) :=
+  handle_tabs env hbn T name events r T' h
+
+/-- **table_writes_sound.**  `tableWrites` IS what a run does to the six context tables: the tables after the
+    run are the tables before it with the listed assignments applied in order. -/
+theorem table_writes_sound (env : Env) (hbn : BenignNested env) (s : Trace.PState) (m : List Kevent) :
+    (Trace.run env s m).2.2.tabs = applyWrites s.tabs ((tableWrites env s m).map (·.2)) :=
+  run_tabs env hbn s m
+
+/-- **thread_writes_per_thread.**  For every history `m` and thread `t`: the sequence of ALL context-table
+    assignments (to `threads_pids`, `pids_names`, `tids_names`, `global_strings`, the pending records) caused by
+    thread `t`'s events is the sequence performed when `t`'s own events are parsed alone. -/
+theorem thread_writes_per_thread (env : Env) (hbn : BenignNested env) (T : Tabs) (m : List Kevent) (t : Nat)
+    (h₁ : NoExc env T m) (h₂ : NoExc env T (own t m)) :
+    (tableWrites env (start T) m).filter (fun p => p.1 == t) = tableWrites env (start T) (own t m) :=
+  (projection_run env hbn t m _ _ (sim_start t T) h₁ h₂).2
+
+/-- **learned_names_per_thread.**  For every history `m` and thread `t`: the sequence of `(pid, name)`
+    assignments to `pids_names` caused by thread `t`'s events is a function of `m.filter (·.tid = t)` alone (the
+    right-hand side mentions nothing else): the pending new-thread / exec record a name string consults is the
+    one written by the same thread.  (False of the pre-F02 code, where the slot was parser-wide.) -/
+theorem learned_names_per_thread (env : Env) (hbn : BenignNested env) (T : Tabs) (m : List Kevent) (t : Nat)
+    (h₁ : NoExc env T m) (h₂ : NoExc env T (own t m)) :
+    namesTaughtBy t (tableWrites env (start T) m) = namesTaughtBy t (tableWrites env (start T) (own t m)) := by
+  unfold namesTaughtBy
+  rw [taught_filter, taught_filter, thread_writes_per_thread env hbn T m t h₁ h₂]
+  congr 2
+  have : ∀ p ∈ tableWrites env (start T) (own t m), (p.1 == t) = true := by
+    have := thread_writes_per_thread env hbn T m t h₁ h₂
+    intro p hp
+    rw [← this] at hp
+    exact (List.mem_filter.1 hp).2
+  exact (List.filter_eq_self.2 this).symm
+
+/-- **projection_traces.**  For every history `m` and thread `t`: the traces attributed to thread `t`
+    (`ktraces[0].tid = t`) in the merged run — handler names, event lists, composite payloads, and the rendered
+    text (or the exception `str()` raises) of every handler outside the exclusion — are, in order, the traces of
+    `t`'s own subsequence parsed alone. -/
+theorem projection_traces (env : Env) (hbn : BenignNested env) (T : Tabs) (m : List Kevent) (t : Nat)
+    (h₁ : NoExc env T m) (h₂ : NoExc env T (own t m)) :
+    (((Trace.run env (start T) m).1.filter fun o => o.tid == t).map (TraceOut.masked env)
+      = (Trace.run env (start T) (own t m)).1.map (TraceOut.masked env)) :=
+  (projection_run env hbn t m _ _ (sim_start t T) h₁ h₂).1
+
+theorem masked_inj (env : Env) (o o' : TraceOut) (h : o.masked env = o'.masked env)
+    (hx : excluded env o.name = false) : o = o' := by
+  rcases o with ⟨n, ev, tx, ex, ob⟩
+  rcases o' with ⟨n', ev', tx', ex', ob'⟩
+  simp only [TraceOut.masked, Prod.mk.injEq] at h
+  obtain ⟨rfl, rfl, h3, rfl⟩ := h
+  simp only at hx
+  simp only [hx, Bool.false_eq_true, if_false, Option.some.injEq, Prod.mk.injEq] at h3
+  rw [h3.1, h3.2]
+
+/-- **projection_traces_exact.**  When none of thread `t`'s traces comes from an excluded handler, the two trace
+    lists are equal outright, texts included. -/
+theorem projection_traces_exact (env : Env) (hbn : BenignNested env) (T : Tabs) (m : List Kevent) (t : Nat)
+    (h₁ : NoExc env T m) (h₂ : NoExc env T (own t m))
+    (hx : ∀ o ∈ (Trace.run env (start T) m).1, o.tid = t → excluded env o.name = false) :
+    ((Trace.run env (start T) m).1.filter fun o => o.tid == t) = (Trace.run env (start T) (own t m)).1 := by
+  have h := projection_traces env hbn T m t h₁ h₂
+  have hx' : ∀ o ∈ (Trace.run env (start T) m).1.filter (fun o => o.tid == t), excluded env o.name = false := by
+    intro o ho
+    obtain ⟨h1, h2⟩ := List.mem_filter.1 ho
+    exact hx o h1 (by simpa using h2)
+  generalize (Trace.run env (start T) m).1.filter (fun o => o.tid == t) = l₁ at h hx'
+  generalize (Trace.run env (start T) (own t m)).1 = l₂ at h
+  induction l₁ generalizing l₂ with
+  | nil => cases l₂ with
+    | nil => rfl
+    | cons y ys => simp at h
+  | cons x xs ih => cases l₂ with
+    | nil => simp at h
+    | cons y ys =>
+      simp only [List.map_cons, List.cons.injEq] at h
+      rw [masked_inj env x y h.1 (hx' x (by simp)), ih (fun o ho => hx' o (List.mem_cons_of_mem _ ho)) ys h.2]
+
+/-- The pids thread-disjointness hypothesis of the corollary: no pid is taught by two different threads. -/
+def DisjointTeachers (L : List (Nat × Nat × String)) : Prop :=
+  ∀ p ∈ L, ∀ q ∈ L, p.2.1 = q.2.1 → p.1 = q.1
+
+/-- **interleaving_invariant_names.**  Any two merges `m₁`, `m₂` of the same per-thread programs (equal
+    per-thread subsequences) (1) teach, per thread, the same sequence of `(pid, name)` pairs, hence (2) the same
+    multiset of `(thread, pid, name)` assignments overall, and (3) when different threads teach different pids,
+    the final `pids_names` lookups agree for every pid. -/
+theorem interleaving_invariant_names (env : Env) (hbn : BenignNested env) (T : Tabs) (m₁ m₂ : List Kevent)
+    (hm : ∀ t, own t m₁ = own t m₂)
+    (h₁ : NoExc env T m₁) (h₂ : NoExc env T m₂) (hown : ∀ t, NoExc env T (own t m₁)) :
+    (∀ t, namesTaughtBy t (tableWrites env (start T) m₁) = namesTaughtBy t (tableWrites env (start T) m₂)) ∧
+    (taught (tableWrites env (start T) m₁)).Perm (taught (tableWrites env (start T) m₂)) ∧
+    (DisjointTeachers (taught (tableWrites env (start T) m₁)) →
+      ∀ pid, (Trace.run env (start T) m₁).2.2.tabs.pidsNames.get pid
+           = (Trace.run env (start T) m₂).2.2.tabs.pidsNames.get pid) := by
+  have hfil : ∀ t, (taught (tableWrites env (start T) m₁)).filter (fun p => p.1 == t)
+      = (taught (tableWrites env (start T) m₂)).filter (fun p => p.1 == t) := by
+    intro t
+    rw [taught_filter, taught_filter, thread_writes_per_thread env hbn T m₁ t h₁ (hown t),
+      thread_writes_per_thread env hbn T m₂ t h₂ (hm t ▸ hown t), hm t]
+  refine ⟨fun t => by simp only [namesTaughtBy, hfil t], perm_of_filter_eq _ _ hfil, ?_⟩
+  intro hdis pid
+  have hperm := perm_of_filter_eq _ _ hfil
+  rw [table_writes_sound env hbn, table_writes_sound env hbn, applyWrites_pidsNames, applyWrites_pidsNames,
+    ← taught_map_snd, ← taught_map_snd]
+  simp only [Dict.get, lookup_reverse_append]
+  congr 2
+  generalize taught (tableWrites env (start T) m₁) = L₁ at hfil hdis hperm
+  generalize taught (tableWrites env (start T) m₂) = L₂ at hfil hperm
+  by_cases hex : ∃ p ∈ L₁, p.2.1 = pid
+  · obtain ⟨p, hp, hpk⟩ := hex
+    have s1 : ∀ q ∈ L₁, q.2.1 = pid → q.1 = p.1 := fun q hq hqk => hdis q hq p hp (hqk.trans hpk.symm)
+    have s2 : ∀ q ∈ L₂, q.2.1 = pid → q.1 = p.1 := fun q hq hqk => s1 q (hperm.mem_iff.2 hq) hqk
+    rw [filter_key_of_single_teacher L₁ pid p.1 s1, filter_key_of_single_teacher L₂ pid p.1 s2, hfil p.1]
+  · have n1 : (L₁.map (·.2)).filter (fun q => q.1 == pid) = [] := by
+      rw [List.filter_eq_nil_iff]
+      intro q hq
+      obtain ⟨r, hr, rfl⟩ := List.mem_map.1 hq
+      simp only [beq_iff_eq]
+      exact fun h => hex ⟨r, hr, h⟩
+    have n2 : (L₂.map (·.2)).filter (fun q => q.1 == pid) = [] := by
+      rw [List.filter_eq_nil_iff]
+      intro q hq
+      obtain ⟨r, hr, rfl⟩ := List.mem_map.1 hq
+      simp only [beq_iff_eq]
+      exact fun h => hex ⟨r, hperm.mem_iff.2 hr, h⟩
+    rw [n1, n2]
+
+/-- **interleaving_invariant_traces_text.**  Any two merges of the same per-thread programs deliver, for every
+    thread, the same traces with the same text (up to the exclusion). -/
+theorem interleaving_invariant_traces_text (env : Env) (hbn : BenignNested env) (T : Tabs) (m₁ m₂ : List Kevent)
+    (hm : ∀ t, own t m₁ = own t m₂)
+    (h₁ : NoExc env T m₁) (h₂ : NoExc env T m₂) (hown : ∀ t, NoExc env T (own t m₁)) (t : Nat) :
+    ((Trace.run env (start T) m₁).1.filter fun o => o.tid == t).map (TraceOut.masked env)
+      = ((Trace.run env (start T) m₂).1.filter fun o => o.tid == t).map (TraceOut.masked env) := by
+  rw [projection_traces env hbn T m₁ t h₁ (hown t), projection_traces env hbn T m₂ t h₂ (hm t ▸ hown t), hm t]
+
+/-- The generated decoders inside the exclusion are exactly the four dyld string readers (kernel-checked
+    against the table regenerated from the repository on every run). -/
+theorem excluded_generated_exact :
+    (Gen.Decoders.decoders.filter fun d => !ownOnly d).map (·.name)
+      = ["DBG_DYLD_TIMING_DLSYM", "DBG_DYLD_TIMING_DLOPEN", "DBG_DYLD_TIMING_MAP_IMAGE",
+         "DBG_DYLD_TIMING_DLOPEN_PREFLIGHT"] := by decide +kernel
+
+/-- Every constructor argument of every generated decoder raises, or not, independently of the cross-thread tables
+    (the four dyld string readers use `dict.get` with a default); kernel-checked against the regenerated table. -/
+theorem all_fields_errFree : Gen.Decoders.decoders.all (fun d => d.fields.all errFree) = true := by decide +kernel
+
+theorem errFreeDecoders_of_generated (env : Env) (h : env.decoders = Gen.Decoders.decoders) : ErrFreeDecoders env := by
+  intro d hd
+  rw [h] at hd
+  exact List.all_eq_true.1 all_fields_errFree d hd
+
+/-- **noexc_own.**  With a decoder table whose constructor arguments are `errFree` (the regenerated table is:
+    `errFreeDecoders_of_generated`): if the merged history is parsed without exception, so is every thread's own
+    subsequence — the second hypothesis of the theorems above follows from the first. -/
+theorem noexc_own (env : Env) (hbn : BenignNested env) (hdec : ErrFreeDecoders env) (T : Tabs) (m : List Kevent) (t : Nat)
+    (h₁ : NoExc env T m) : NoExc env T (own t m) :=
+  Trace.noexc_own env hbn hdec t m _ _ (sim_start t T) h₁
+
+/-- `learned_names_per_thread` and `projection_traces` from the merged run alone. -/
+theorem per_thread_of_merged_run (env : Env) (hbn : BenignNested env) (hdec : ErrFreeDecoders env) (T : Tabs)
+    (m : List Kevent) (t : Nat) (h₁ : NoExc env T m) :
+    namesTaughtBy t (tableWrites env (start T) m) = namesTaughtBy t (tableWrites env (start T) (own t m)) ∧
+    (((Trace.run env (start T) m).1.filter fun o => o.tid == t).map (TraceOut.masked env)
+      = (Trace.run env (start T) (own t m)).1.map (TraceOut.masked env)) :=
+  ⟨learned_names_per_thread env hbn T m t h₁ (noexc_own env hbn hdec T m t h₁),
+   projection_traces env hbn T m t h₁ (noexc_own env hbn hdec T m t h₁)⟩
+
+/-- A code table that names nothing in the range of the page-fault sub-records is benign. -/
+theorem benign_of_unnamed_range (env : Env) (h : ∀ eid, vmfaultRange eid = true → env.codes eid = none) :
+    BenignNested env := by
+  intro eid n hr hc
+  rw [h eid hr] at hc; cases hc
+
+/-- The rows of the BUNDLED code table in the range of the page-fault sub-records: `RealFaultAddressInternal`
+    (0x1320008), `…Purgeable` (0x132000c, no handler), `…External` (0x1320010), `…SharedCache` (0x1320014) — by their
+    name keys; none is a table-writing or an excluded handler.  Kernel-checked against the regenerated table. -/
+theorem bundled_nested_rows :
+    (Gen.Codes.codes.filter fun p => vmfaultRange p.1).map (·.1) = [0x1320010, 0x1320008, 0x132000c, 0x1320014] := by
+  decide +kernel
+
+/-! ### non-vacuity: the adversarial schedule `A-data, B-data, A-string, B-string` -/
+
+/-- Two new-thread codes, the real hand-written handlers, ASCII as `bytes.decode`. -/
+def exEnv : Env :=
+  { codes := fun k => [(0x7000004, "TRACE_DATA_NEWTHREAD"), (0x7010004, "TRACE_STRING_NEWTHREAD")].lookup k,
+    host := Gen.Host.host, tables := Gen.Decoders.tables, decoders := [],
+    dec := fun bs => .ok (String.ofList (bs.map Char.ofNat)) }
+
+def dataRec (ts tid newTid pid : Nat) : Kevent :=
+  { timestamp := ts, data := [], values := [newTid, pid, 0, 0], tid := tid, debugid := 0x7000004,
+    eventid := 0x7000004, qual := 0 }
+
+def strRec (ts tid : Nat) (name : List Nat) : Kevent :=
+  { timestamp := ts, data := name ++ [0, 0], values := [], tid := tid, debugid := 0x7010004, eventid := 0x7010004,
+    qual := 0 }
+
+/-- Thread 1 announces pid 11 named "pA", thread 2 announces pid 22 named "pB". -/
+def adversarial : List Kevent := [dataRec 1 1 101 11, dataRec 2 2 102 22, strRec 3 1 [112, 65], strRec 4 2 [112, 66]]
+def sequentialN : List Kevent := [dataRec 1 1 101 11, strRec 3 1 [112, 65], dataRec 2 2 102 22, strRec 4 2 [112, 66]]
+
+theorem exEnv_benign : BenignNested exEnv := by
+  apply benign_of_unnamed_range
+  intro eid hr
+  simp only [vmfaultRange, decide_eq_true_eq] at hr
+  have h1 : (eid == 0x7000004) = false := by rw [beq_eq_false_iff_ne]; omega
+  have h2 : (eid == 0x7010004) = false := by rw [beq_eq_false_iff_ne]; omega
+  simp [exEnv, List.lookup, h1, h2]
+
+example : NoExc exEnv {} adversarial ∧ NoExc exEnv {} sequentialN ∧ NoExc exEnv {} (own 1 adversarial) ∧
+    NoExc exEnv {} (own 2 adversarial) ∧ own 1 adversarial = own 1 sequentialN ∧ adversarial ≠ sequentialN := by
+  decide +kernel
+
+example :
+    namesTaughtBy 1 (tableWrites exEnv (start {}) adversarial) = [(11, "pA")] ∧
+    namesTaughtBy 2 (tableWrites exEnv (start {}) adversarial) = [(22, "pB")] ∧
+    namesTaughtBy 1 (tableWrites exEnv (start {}) (own 1 adversarial)) = [(11, "pA")] ∧
+    (Trace.run exEnv (start {}) adversarial).2.2.tabs.pidsNames.get 11 = some "pA" ∧
+    (Trace.run exEnv (start {}) adversarial).2.2.tabs.pidsNames.get 22 = some "pB" ∧
+    (Trace.run exEnv (start {}) sequentialN).2.2.tabs.pidsNames.get 11 = some "pA" ∧
+    ((Trace.run exEnv (start {}) adversarial).1.filter fun o => o.tid == 1).map (·.text.toOption)
+      = [some "New thread 101 of parent: 11", some "New thread of parent: pA"] := by
+  decide +kernel
+
+/-- Shape of defect F02 (one parser-wide pending slot): under the adversarial schedule thread 1's string would
+    consult thread 2's record and teach `(22, "pA")`; the per-thread tables above teach `(11, "pA")`. -/
+example : (taught (tableWrites exEnv (start {}) adversarial)) = [(1, 11, "pA"), (2, 22, "pB")] := by decide +kernel
 
 end KdVerif.C05
